@@ -10,6 +10,7 @@ from ..engine.mutate import Mutant, Variant, in_function, replace_once
 from ..engine.runner import Rule
 from ..engine.source import AnalysisError
 from . import C11
+from . import C12
 from . import shared
 from .common import callee_name, calls_in
 
@@ -202,6 +203,7 @@ def rule_outputs_recorded(ctx):
 
 
 RULES = [
+    Rule("R-C07-11", "what a command wrote is hashed and recorded when its step is declared again while it runs (the re-creation detaches outputs the new declaration lacks; without a hash the cleanup forgets them)", C12.rule_redeclared_running_step, min_instances=22),
     Rule("R-C07-9", "outputs of every completed run are recorded", rule_outputs_recorded, min_instances=1),
     Rule("R-C07-10", "the need of an optional step follows its attached consumers (which steps are reverted)", C11.rule_read_set, min_instances=10),
     Rule("R-C07-8", "queued paths are really removed", rule_cleanup_wiring, min_instances=4),
@@ -234,6 +236,9 @@ MUTANTS = [
     Mutant("no-parent-walk", "finalize.py", in_function("_prune_empty_dirs", replace_once("                todo.append(parent)\n", "                pass\n")), ("R-C07-4",)),
     Mutant("revert-by-declared-need", "finalize.py", replace_once("WHERE _implied_need = {Need.OPTIONAL.value}\nAND NOT node.detached", "WHERE need = {Need.OPTIONAL.value}\nAND NOT node.detached"), ("R-C07-5",)),
 ]
+
+# the declared-again mechanism is shared with C12 (R-C12-10): its mutants are replayed for this property's copy of the rule
+MUTANTS += [Mutant("shared-" + m.name, m.file, m.transform, ("R-C07-11",), m.note) for m in C12.MUTANTS if m.name in ['replaced-command-outputs-forgotten', 'dropped-run-outputs-looked-up-attached-only', 'replaced-command-outputs-looked-up-attached-only', 'dropped-run-outputs-recorded-as-succeeded']]
 
 VARIANTS = [
     Variant("loop-flag-rename", "trellis.py", in_function("Trellis.delete_detached", lambda s: s.replace("cleaned_some", "progress") if "cleaned_some" in s else None)),
